@@ -52,6 +52,8 @@ def str_eval(e: ast.AST, env: Dict[str, object]):
             return getattr(recv, m)(*args)
         if m == "partition" and isinstance(recv, str):
             return recv.partition(*args)
+    if isinstance(e, ast.Call) and dotted(e.func) == "len" and len(e.args) == 1:
+        return len(str_eval(e.args[0], env))
     if isinstance(e, ast.Subscript):
         base = str_eval(e.value, env)
         if isinstance(e.slice, ast.Slice):
@@ -110,6 +112,7 @@ def run(ctx):
     r4_r5(ctx)
     r6(ctx)
     r8(ctx)
+    r9(ctx, g)
     from rules import c03
 
     c03.r6(ctx, rule="R7")
@@ -577,6 +580,46 @@ def r6(ctx):
             ok = cls == "DataTransformBlock" or guarded
             ctx.ob("R6", "DOM", f, f"in-loop set_config_block({src(c.args[0])})", ok,
                    f"in-loop attachment of {cls}: " + ("a data transform always has its steps/termination children" if cls == "DataTransformBlock" else f"guarded by {conds[-2:]}" if guarded else "not guarded against an empty child"), c)
+
+
+def r9(ctx, g):
+    """DataTransformBlock.__init__ accepts every step the generator can hand it: each lower-cased opcode name of the
+    transform / recover parsers is routed to add_step or add_termination under a name that is an alias of the matching
+    statement kind and arity - a name no branch accepts is dropped silently and the block no longer parses."""
+    f = ctx.repo.func("c2profile.DataTransformBlock.__init__")
+    loops = [s for s in statements(f.node) if isinstance(s, ast.For)]
+    if len(loops) != 1 or not dotted(loops[0].target):
+        ctx.ob("R9", "VOCAB", f, "steps loop", False, f"expected one `for <option> in steps` loop, found {len(loops)}", f.node)
+        return
+    opt = dotted(loops[0].target)
+    tr, te = aliases_of(g, ["transform_statement"]), aliases_of(g, ["termination_statement"])
+
+    def emit(c, env, out):
+        if isinstance(c.func, ast.Attribute) and c.func.attr in ("add_step", "add_termination") and len(c.args) == 2:
+            try:
+                name = str_eval(c.args[0], env)
+            except Unknown:
+                name = "?" + src(c.args[0])
+            out.append((c.func.attr, name, 0 if is_const(c.args[1], None) else 1))
+
+    flags = sorted({n.lower() for n in tables.STEPS_NO_ARG} | {n.lower() for n, has in tables.RECOVER_STEPS.items() if not has})
+    valued = sorted({n.lower() for n in tables.STEPS_LEN_ARG if not n.startswith("_")} | {n.lower() for n, has in tables.RECOVER_STEPS.items() if has})
+    n = 0
+    for name, env, ar in [(x, {opt: x}, 0) for x in flags] + [(x, {opt: (x, "v")}, 1) for x in valued]:
+        out = []
+        _simulate_env(loops[0].body, dict(env), out, emit)
+        ok = len(out) == 1
+        detail = f"{name!r} ({'flag' if ar == 0 else 'valued'}) -> {out}"
+        if ok:
+            m, emitted, got_ar = out[0]
+            tab = tr if m == "add_step" else te
+            ok = got_ar == ar and emitted in tab and ar in tab[emitted]
+            detail += f"; {'transform' if m == 'add_step' else 'termination'} alias {emitted!r} with {ar} argument(s) in the grammar={ok}"
+        else:
+            detail += " (exactly one add_step/add_termination expected: the step is dropped or duplicated)"
+        ctx.ob("R9", "VOCAB", f, f"step {name}", ok, detail, loops[0])
+        n += 1
+    ctx.rep.count("builder_step_names", n, floor=10)
 
 
 def r8(ctx):
